@@ -56,6 +56,11 @@ def countsDen (rays : List Ray) (q : Pos) : Nat :=
 /-- `raytracing` with the default `absolute_counts=True, threshold=1` -/
 def visRaytracing (g : Grid) (rays : List Ray) : Mask := fun q => decide (1 ≤ countsNum g rays q)
 
+/-- `raytracing` as called from `from_visibility`: computing the fan raises `ValueError` when the
+agent's cell is not inside the view -/
+def visRaytracingChecked (rays : List Ray) (g : Grid) (p : Pos) : Except PyErr Mask :=
+  if g.contains p then .ok (visRaytracing g rays) else .error .valueError
+
 /-- a float probability as an exact dyadic rational `num / den` (`float.as_integer_ratio`) -/
 structure Prob where
   num : Nat
